@@ -4,6 +4,7 @@ import Rustemo.Model.Cert
 import Rustemo.Driver.Regen
 import Rustemo.Driver.Cli
 import Rustemo.Driver.Resolve
+import Rustemo.Driver.Gen
 import Rustemo.Model.Canon
 import Rustemo.Model.CertComplete
 import Rustemo.Model.Core
@@ -82,6 +83,7 @@ def handle (st : DState) (line : String) : DState × String :=
       let r := Cover.check st.dump.grammar st.dump.table (natOf s0) (natOf aug) (rn == "1") 5000
       (st, (if r.ok then "ok" else "fail") ++ s!" pairs={r.pairs} canon={r.canonStates} {r.why}")
     | _ => (st, "bad-request")
+  | "gen" => (st, Rustemo.Gen.handleGen rest)
   | "resolve" => (st, handleResolve rest)
   | "forest" => (st, Rustemo.Forest.handleForest rest)
   | "cli" => (st, handleCli rest)
